@@ -390,7 +390,7 @@ def ob_reader_keys(ctx, o, F):
     for k, v in kw.items():
         vx = fx.x(v, keep=[rowvar])
         cs = _cell_of(vx, rowvar)
-        if len(cs) != 1 or const_str(cs[0][2]) is None:
+        if not cs or const_str(cs[0][2]) is None or any(not same(c[0], cs[0][0]) for c in cs):
             o.undecided(f, ctor, v, f"TaskRaw keyword `{k}` is not computed from exactly one cell row[header['<name>']]")
             continue
         node, hexpr, key = cs[0]
@@ -402,6 +402,7 @@ def ob_reader_keys(ctx, o, F):
         else:
             o.refute(f, ctor, f"{k}=..['{key.value}']", f"TaskRaw keyword `{k}` is read from column `{key.value}`; expected column `{k}`")
     F.reader_cells = cells
+    F.reader_kw = set(kw)
     missing = [c for c in COLUMNS if c not in kw]
     extra = [k for k in kw if k not in COLUMNS]
     for c in missing:
@@ -1376,7 +1377,7 @@ def ob_fields(ctx, o, F):
         if route_b == 'column':
             cells = F.reader_cells or {}
             if field not in cells or cells[field][2] != field:
-                if F.reader_cells is None:
+                if F.reader_cells is None or (field in getattr(F, 'reader_kw', ()) and field not in cells):
                     o.undecided(rd, None, f"{field}: reader", "reader cells not recognised (see C13.reader-keys)")
                 else:
                     o.refute(rd, None, f"{field}: column not read", f"column `{field}` is written but not passed to TaskRaw(...) on read")
